@@ -30,7 +30,7 @@ for f in sorted(os.listdir(os.path.join(V, 'kani'))):
         name = m.group(2)
         tier, kind, bound = 'quick', 'complete', ''
         for c in comments:
-            t = re.search(r'TIER:\s*(quick|thorough)', c)
+            t = re.search(r'TIER:\s*(quick!?|thorough)', c)
             if t:
                 tier = t.group(1)
             k = re.search(r'KIND:\s*(complete|bounded)\s*(\((.*)\))?', c)
@@ -56,7 +56,8 @@ if '--all' not in sys.argv:
             del idx[name]
             continue
         # the measured CBMC time decides the tier (the TIER comment of the author is only a default)
-        idx[name]['tier'] = 'quick' if e.get('seconds', 0) <= QUICK_MAX else 'thorough'
+        forced = idx[name]['tier'] == 'quick!'   # `// TIER: quick!` keeps a key harness in the quick tier whatever it costs
+        idx[name]['tier'] = 'quick' if (forced or e.get('seconds', 0) <= QUICK_MAX) else 'thorough'
         idx[name]['seconds'] = e.get('seconds')
 if dropped:
     print('not registered (no closing run recorded in expected.json):', ', '.join(sorted(dropped)), file=sys.stderr)
